@@ -59,9 +59,9 @@ fn cfg() -> GenCfg {
     c
 }
 
-struct Recorded {
-    initial: crash::Images,
-    events: Vec<crash::Logged>,
+pub struct Recorded {
+    pub initial: crash::Images,
+    pub events: Vec<crash::Logged>,
     /// dumps[i] = exact dump after step i-1 (dumps[0] = before step 0)
     dumps: Vec<Dump>,
     steps: Vec<Step>,
@@ -71,7 +71,7 @@ fn dump_any(any: &AnyDb) -> Result<Dump, String> {
     with_db!(any, db, dump::dump(db, &probe()))
 }
 
-fn record(kind: &str, path: &str, seed: u64, len: usize, bursts: bool) -> Result<Recorded, String> {
+pub fn record(kind: &str, path: &str, seed: u64, len: usize, bursts: bool) -> Result<Recorded, String> {
     crate::hist_eng::cleanup(path);
     // creation of the empty database is outside the quantifier
     drop(open(kind, path).map_err(|e| format!("create: {e:?}"))?);
